@@ -43,9 +43,27 @@ def run_case(ctx):
             for arr in m.data[lv]:
                 arr[..., k] = np.clip(rng.uniform(-0.3, 1.3, arr.shape[:-1]), 0.0, 1.0)
     world.gen_cosmetics(src, m, "w")
-    path, _ = common.materialise(ctx, m)
     field = src.choice("field", names)
     limit = src.draw("limit.v", 0, m.nlev - 1) if src.flag("limit") else None
+    if src.flag("covered_garbage", 3):
+        # coarse cells covered by the next SELECTED level hold garbage (NaN / inf): a solver need not
+        # average fine data down; such cells must not enter the integral at all
+        Lsel = m.nlev - 1 if limit is None else limit
+        rngc = np.random.default_rng(src.draw("covered.seed", 0, 9999))
+        for lv in range(Lsel):
+            for b in range(len(m.boxes[lv])):
+                cov = ~m.uncovered_mask(lv, b, Lsel)
+                if cov.any():
+                    vals = rngc.choice([np.nan, np.inf, -np.inf, 1e300], size=int(cov.sum()))
+                    for k in range(len(names)):
+                        m.data[lv][b][..., k][cov] = vals
+        ctx.probe("covered_cells_poisoned")
+
+    def warm(p):
+        from amr_kitchen import PlotfileCooker as _PC
+        from amr_kitchen.pestle import volume_integral as _vi
+        run_tool(ctx, lambda: _vi(_PC(p, ghost=True), field))
+    path, hcwd, _abs, hmode = common.history_materialise(ctx, m, warm)
     use_vf = bool(src.draw("use_volfrac", 0, 1))
     form = src.choice("form", ["reader-limit", "arg-limit", "cli"])
     fidx = names.index(field)
@@ -58,7 +76,7 @@ def run_case(ctx):
     if form == "cli":
         from amr_kitchen.pestle import cli
         argv = ["pestle", "-v", field] + (["-l", str(limit)] if limit is not None else []) + (["-vf"] if use_vf else []) + [path]
-        o = run_tool(ctx, cli.main, cwd=ctx.scratch, argv=argv, label=f"pestle {argv[1:]}")
+        o = run_tool(ctx, cli.main, argv=argv, label=f"pestle {argv[1:]}")
         if o.ok:
             mt = re.search(r"Volume integral of .* in plotfile: (\S+) ", o.out)
             if not mt:
